@@ -56,6 +56,15 @@ def run(prop, tier, seed, work, ev):
                 f.write(json.dumps({"e": "total", "text": common.cps(text), "doc": {"t": "null"}, "deep": True}) + "\n")
     if common.count_lines(w):
         rejects += run_and_judge("nesting far beyond the bound (recorded finding)", w, "search", work, ev, drv)
+    # numeric magnitude: built-ins on documents whose numbers are at the edge of (or leave) the double range
+    c = work.path("magnitude.cases")
+    with open(c, "w") as f:
+        for doc in ("[1e308, 1e308]", "[1.7e308, 1.7e308, 1]", "[-1e308, -1e308]", "[9e307, 9e307, 9e307]", "[5e-324, 5e-324]", "[18446744073709551615, 1]",
+                    "[-9223372036854775808, -1]", "[1e308]", "[]", "[0.1, 0.2, 1e-320]", "[123456789012345678901234567890, 1e22]"):
+            for text in ("sum(@)", "avg(@)", "max(@)", "min(@)", "sort(@)", "abs(@[0])", "ceil(@[0])", "floor(@[0])", "to_string(@)", "@[0] < @[1]",
+                         "@[0] == @[1]", "map(&abs(@), @)", "sum(@) > avg(@)", "[sum(@), avg(@)]", "to_number(to_string(@[0]))", "length(@)", "join(',', map(&to_string(@), @))"):
+                f.write(json.dumps({"e": "total", "text": common.cps(text), "doctext": common.cps(doc)}) + "\n")
+    rejects += run_and_judge("numeric magnitude at the edge of the double / 64-bit integer range", c, "search", work, ev, drv)
     # case files of the other engines, in totality mode
     c = work.path("chars.cases")
     eng_lang.gen(work, "chars", c, t["charsN"], alpha="full")
